@@ -104,22 +104,22 @@ fn c11_write(kind: u8, a_cas: bool) {
     core::mem::forget(l);
     core::mem::forget(f);
 }
-// @h props=C11,C17 tier=quick cap=900 desc="client set on the leader (plain key): mirrored once, follower holds the same values" bounds="keys a,b; values Bool"
+// @h props=C11 tier=quick cap=900 desc="client set on the leader (plain key): mirrored once, follower holds the same values" bounds="keys a,b; values Bool"
 c11h!(c11_set_plain, c11_write(SET, false));
-// @h props=C11,C17 tier=quick cap=900 desc="client set on a CAS key (rejected on the leader, any version): follower rejects it too, nothing diverges" bounds="keys a,b; version u64"
+// @h props=C11 tier=quick cap=900 desc="client set on a CAS key (rejected on the leader, any version): follower rejects it too, nothing diverges" bounds="keys a,b; version u64"
 c11h!(c11_set_on_cas_rejected, c11_write(SET, true));
-// @h props=C11,C17 tier=quick cap=900 desc="client cset version 0 on a plain key (accepted): follower ends with the same CAS version" bounds="keys a,b"
+// @h props=C11 tier=quick cap=900 desc="client cset version 0 on a plain key (accepted): follower ends with the same CAS version" bounds="keys a,b"
 c11h!(c11_cset_accepted, c11_write(CSET, false));
-// @h props=C11,C17 tier=quick cap=900 desc="client delete on the leader: mirrored, same entries" bounds="keys a,b"
+// @h props=C11 tier=quick cap=900 desc="client delete on the leader: mirrored, same entries" bounds="keys a,b"
 c11h!(c11_delete, c11_write(DELETE, false));
-// @h props=C11,C17 tier=quick cap=900 desc="client pdelete ? on the leader: mirrored, both sides empty" bounds="keys a,b"
+// @h props=C11 tier=quick cap=900 desc="client pdelete ? on the leader: mirrored, both sides empty" bounds="keys a,b"
 c11h!(c11_pdelete, c11_write(PDELETE, true));
 
 // ---------------------------------------------------------------- session end on the leader
 // L: client c1 with grave goods [a/x] and last will {a/y: w}; user keys a/x, a/y on both sides; the follower
 // has received the registrations earlier (they are forwarded as ordinary sets), so F's $SYS holds them too.
 // The leader's two internal subscriptions (grave goods / last will registrations) exist as in run_in_leader_mode.
-// @h props=C11,C07 tier=quick cap=2400 mem=20 autounwind=80 desc="session end of a client with grave goods and last will on the leader: after the follower applied everything it was sent, both hold the same user keys" bounds="1 client; keys a/x, a/y"
+// @h props=C11 tier=quick cap=2400 mem=20 autounwind=80 desc="session end of a client with grave goods and last will on the leader: after the follower applied everything it was sent, both hold the same user keys" bounds="1 client; keys a/x, a/y"
 c11h!(c11_session_end, {
     let xb: bool = kani::any();
     let yb: bool = kani::any();
@@ -177,7 +177,7 @@ c11h!(c11_session_end, {
 });
 
 // ---------------------------------------------------------------- a follower joins
-// @h props=C11,C12 tier=quick cap=2400 mem=20 autounwind=80 desc="follower joins a leader that has a client with registered grave goods: state transfer gives it the user keys AND the registrations" bounds="1 client; key a"
+// @h props=C11 tier=quick cap=2400 mem=20 autounwind=80 desc="follower joins a leader that has a client with registered grave goods: state transfer gives it the user keys AND the registrations" bounds="1 client; key a"
 c11h!(c11_join, {
     const ID1: &str = "00000000-0000-0000-0000-000000000001";
     let ea = E::any(true);
@@ -211,7 +211,7 @@ c11h!(c11_join, {
 });
 
 // ---------------------------------------------------------------- the follower refuses writes
-// @h props=C11,C17 tier=quick cap=900 desc="every write offered to the follower directly is answered NotLeader and changes nothing (set, cset any version, delete, pdelete, publish)" bounds="key a"
+// @h props=C11 tier=quick cap=900 desc="every write offered to the follower directly is answered NotLeader and changes nothing (set, cset any version, delete, pdelete, publish)" bounds="key a"
 c11h!(c11_follower_refuses, {
     use crate::leader_follower::follower::x::api_call as follower_api;
     let ea = E::any(false);
